@@ -221,7 +221,7 @@ structure ROut where
 
 inductive Real
   | ok (toks : Toks) (rout : ROut)
-  | diag (msgs : List String)
+  | diag (msgs : List String) (loci : List String)   -- messages, and where each points (`call`, `attr:a:n`, `item:a:n`, `unk`)
   | panic (msg : String)
   deriving Repr, Inhabited
 
@@ -233,7 +233,8 @@ def dROut : Sx → Option ROut
 
 def dReal : Sx → Option Real
   | .node "ok" [ts, r] => do some (.ok (← dToks ts) (← dROut r))
-  | .node "diag" [ms] => do some (.diag (← dList dText ms))
+  | .node "diag" [ms, ls] => do some (.diag (← dList dText ms) (← dList dText ls))
+  | .node "diag" [ms] => do some (.diag (← dList dText ms) [])
   | .node "panic" [m] => do some (.panic (← dText m))
   | _ => none
 
